@@ -17,7 +17,7 @@ PID = "C12"
 
 def cfg_space(tier):
     pos = '''{ [type |-> "positive", startEp |-> s, epochs |-> e, N |-> nb[1], posB |-> nb[2], negB |-> 0,
-       data |-> [i \\in 1..nb[1] |-> i], bases |-> <<>>, sched |-> sc, entryStop |-> es, perms |-> "id",
+       data |-> [i \\in 1..nb[1] |-> i], bases |-> <<>>, sched |-> sc, entryStop |-> es, again |-> "no", perms |-> "id",
        cbs |-> cb, vals |-> <<>>, vars |-> <<>>] :
        s \\in 0..%d, e \\in 0..3, nb \\in %s, sc \\in BOOLEAN, es \\in BOOLEAN,
        cb \\in {<<[t |-> "rec"]>>, <<[t |-> "rec"], [t |-> "rec"]>>%s} }''' % (
@@ -25,7 +25,7 @@ def cfg_space(tier):
         (3, "{<<1,1>>, <<2,1>>, <<3,2>>, <<3,1>>, <<4,3>>}", ', <<[t |-> "rec"], [t |-> "rec"], [t |-> "rec"]>>'))
     # complex / mixed states: bases required; rows 1 and N are all-Z (code 0)
     other = '''{ [type |-> ty, startEp |-> s, epochs |-> e, N |-> 3, posB |-> pb, negB |-> ngb,
-       data |-> <<1, 2, 3>>, bases |-> <<0, 1, 0>>, sched |-> FALSE, entryStop |-> es, perms |-> "id",
+       data |-> <<1, 2, 3>>, bases |-> <<0, 1, 0>>, sched |-> FALSE, entryStop |-> es, again |-> "no", perms |-> "id",
        cbs |-> <<[t |-> "rec"]>>, vals |-> <<>>, vars |-> <<>>] :
        ty \\in {"complex", "density"}, s \\in 1..2, e \\in 1..%d, pb \\in {2, 3}, ngb \\in {0, 1}, es \\in BOOLEAN }''' % (
         2 if tier == "quick" else 3)
@@ -44,7 +44,7 @@ def random_cfg(rng):
     s = rng.randint(0, 3)
     cfg = dict(type=typ, startEp=s, epochs=rng.randint(s - 1, s + 3), N=N, posB=rng.randint(1, 4),
                negB=rng.choice([0, 0, 1, 2, 3]), data=data, bases=bases, sched=rng.random() < 0.5,
-               entryStop=rng.random() < 0.08, perms="all",
+               entryStop=rng.random() < 0.08, again="no", perms="all",
                cbs=[{"t": "rec"} for _ in range(rng.randint(1, 3))], vals=[], vars=[])
     plan = set()
     for _ in range(rng.choice([0, 1, 1, 2])):
